@@ -616,6 +616,11 @@ func (sa *Application) removeAsksInternal(allocKey string, detail si.EventRecord
 	// When the resource trackers are zero we should not expect anything to come in later.
 	hasPlaceHolderAllocations := len(sa.getPlaceholderAllocations()) > 0
 	if resources.IsZero(sa.pending) && resources.IsZero(sa.allocatedResource) && !sa.IsFailing() && !sa.IsCompleting() && !hasPlaceHolderAllocations {
+		// The last allocation could have been released while asks were still pending: in that case the application
+		// is still tracked as running for the user and group. Nothing is left to track, remove it from the trackers.
+		if ugm.GetUserManager().GetUserTracker(sa.user.User) != nil {
+			sa.decUserResourceUsage(resources.NewResource(), true)
+		}
 		if err := sa.HandleApplicationEvent(CompleteApplication); err != nil {
 			log.Log(log.SchedApplication).Warn("Application state not changed to Completing while updating ask(s)",
 				zap.String("currentState", sa.CurrentState()),
